@@ -9,7 +9,8 @@ WQ = 5903` for White and the same numbers shifted left by 16 for Black; kings an
   with six black queens is `≥ 2^31` (`matId_overflow_witness`), so the signed 32-bit addition overflowed
   (undefined behaviour); promotion makes up to nine queens per side reachable.  `Evaluate::materialScore` computed
   `int key = (mId >> 16) * 40507 + mId`, whose exact value is `≥ 2^31` already with four black queens
-  (`matKey_overflow_witness`).
+  (`matKey_overflow_witness`).  `MatIdOld.addPiece` / `MatIdOld.key` model the signed operations with `none` for
+  overflow; `matId_signed_iff` gives the exact overflow condition (Black's half `≥ 2^15`).
 * **Repaired code** (`unsigned int hash`): for every promotion-consistent material configuration the exact
   identifier is `< 2^32` (`matId_lt`), so the unsigned sum never wraps (`matId_toNat`), both 16-bit halves hold
   their colour's sum exactly (`half_lt`), and the identifier determines the configuration (`matId_injective`; the
@@ -133,6 +134,33 @@ theorem matId_halves (c : Counts) (h : PromoConsistent c) :
   have := half_lt c h
   rw [matIdNat_eq]; omega
 
+/-- for promotion-consistent counts the exact identifier fits a signed `int` iff Black's half is below 2^15 -/
+theorem matId_signed_iff (c : Counts) (h : PromoConsistent c) : matIdNat c < 2 ^ 31 ↔ blackHalf c < 32768 := by
+  have := half_lt c h
+  rw [matIdNat_eq]; omega
+
+/-- the original `int hash; hash += materialId[pType]`: `none` is signed overflow (undefined behaviour) -/
+def MatIdOld.addPiece (hash : Int) (p : Pc) : Option Int :=
+  let v := hash + matW p
+  if v < 2 ^ 31 then some v else none
+
+/-- the original `int key = (mId >> 16) * 40507 + mId` for `mId ≥ 0`: `none` is signed overflow -/
+def MatIdOld.key (mId : Int) : Option Int :=
+  let v := (mId / 65536) * 40507 + mId
+  if v < 2 ^ 31 then some v else none
+
+/-- adding the sixth black queen overflows the original signed identifier -/
+theorem MatIdOld.six_black_queens :
+    ((((((some 0 : Option Int).bind (addPiece · BQUEEN)).bind (addPiece · BQUEEN)).bind (addPiece · BQUEEN)).bind
+      (addPiece · BQUEEN)).bind (addPiece · BQUEEN)) = some 1934295040 ∧
+    addPiece 1934295040 BQUEEN = none := by decide
+
+/-- with four black queens the original signed key computation overflows -/
+theorem MatIdOld.key_four_black_queens :
+    ((((some 0 : Option Int).bind (addPiece · BQUEEN)).bind (addPiece · BQUEEN)).bind (addPiece · BQUEEN)).bind
+      (addPiece · BQUEEN) = some 1547436032 ∧
+    key 1547436032 = none := by decide
+
 /-! ### uniqueness -/
 
 /-- candidate decoding with the given numbers of queens and bishops -/
@@ -177,6 +205,22 @@ theorem ifLe8_true {a : Nat} {x : Bool} (h : ifLe8 a x = true) (ha : a ≤ 8) : 
   have : Nat.ble a 8 = true := Nat.ble_eq.mpr ha
   simpa [ifLe8, this] using h
 
+/-- `o = some (p, r, n, b, q)` as a Boolean (cheaper in the kernel than the derived `DecidableEq`) -/
+def eq5 (o : Option (Nat × Nat × Nat × Nat × Nat)) (p r n b q : Nat) : Bool :=
+  match o with
+  | some (p', r', n', b', q') => Nat.beq p' p && Nat.beq r' r && Nat.beq n' n && Nat.beq b' b && Nat.beq q' q
+  | none => false
+
+theorem eq5_true {o : Option (Nat × Nat × Nat × Nat × Nat)} {p r n b q : Nat} (h : eq5 o p r n b q = true) :
+    o = some (p, r, n, b, q) := by
+  match o with
+  | none => simp [eq5] at h
+  | some (p', r', n', b', q') =>
+    simp only [eq5, Bool.and_eq_true] at h
+    obtain ⟨⟨⟨⟨h1, h2⟩, h3⟩, h4⟩, h5⟩ := h
+    rw [Nat.eq_of_beq_eq_true h1, Nat.eq_of_beq_eq_true h2, Nat.eq_of_beq_eq_true h3,
+      Nat.eq_of_beq_eq_true h4, Nat.eq_of_beq_eq_true h5]
+
 /-- the enumeration of all one-colour configurations as a Boolean check; branches whose queens, bishops, knights
     and rooks already need more than eight promotions are pruned -/
 def decCheck : Bool :=
@@ -184,7 +228,7 @@ def decCheck : Bool :=
   allB 11 fun n => ifLe8 ((q - 1) + (b - 2) + (n - 2)) <|
   allB 11 fun r => ifLe8 ((q - 1) + (b - 2) + (n - 2) + (r - 2)) <|
   allB 9 fun p => ifLe8 (p + (q - 1) + (r - 2) + (b - 2) + (n - 2)) <|
-    decide (dec (halfId p r n b q) = some (p, r, n, b, q))
+    eq5 (dec (halfId p r n b q)) p r n b q
 
 theorem decCheck_true : decCheck = true := by decide +kernel
 
@@ -198,7 +242,7 @@ theorem dec_halfId_all :
   have h := allB_true (ifLe8_true h (by omega)) n hn
   have h := allB_true (ifLe8_true h (by omega)) r hr
   have h := allB_true (ifLe8_true h (by omega)) p hp
-  exact of_decide_eq_true (ifLe8_true h hok)
+  exact eq5_true (ifLe8_true h hok)
 
 theorem dec_halfId (p r n b q : Nat) (h : HalfOK p r n b q) : dec (halfId p r n b q) = some (p, r, n, b, q) := by
   have h' := h
@@ -225,6 +269,62 @@ theorem matId_injective (c₁ c₂ : Counts) (h₁ : PromoConsistent c₁) (h₂
   obtain ⟨b1, b2, b3, b4, b5⟩ := half_injective _ _ _ _ _ _ _ _ _ _ h₁.2 h₂.2 hb
   cases c₁; cases c₂
   simp_all
+
+/-! ## connection with the model (`Tables.mat`, `fresh`) -/
+
+/-- `MatId::materialId[]` as unsigned 32-bit values: the instance of `Tables.mat` -/
+def matTable : Pc → BitVec 32 := fun p => BitVec.ofNat 32 (matW p)
+
+theorem matTable_empty : matTable EMPTY = 0 := by decide
+
+/-- number of squares `s < 64` holding the piece code `pc` -/
+def cntPc (b : Board) (pc : Pc) : Nat := foldN (· + ·) 0 (fun s => if getP b s = pc then 1 else 0) 64
+
+def countsOf (b : Board) : Counts :=
+  { wq := cntPc b WQUEEN, wr := cntPc b WROOK, wb := cntPc b WBISHOP, wn := cntPc b WKNIGHT, wp := cntPc b WPAWN,
+    bq := cntPc b BQUEEN, br := cntPc b BROOK, bb := cntPc b BBISHOP, bn := cntPc b BKNIGHT, bp := cntPc b BPAWN }
+
+/-- weighted sum of per-code multiplicities -/
+def wsum (k : Pc → Nat) : Nat :=
+  k WQUEEN * matW WQUEEN + k WROOK * matW WROOK + k WBISHOP * matW WBISHOP + k WKNIGHT * matW WKNIGHT +
+  k WPAWN * matW WPAWN +
+  k BQUEEN * matW BQUEEN + k BROOK * matW BROOK + k BBISHOP * matW BBISHOP + k BKNIGHT * matW BKNIGHT +
+  k BPAWN * matW BPAWN
+
+theorem wsum_add (f g : Pc → Nat) : wsum (fun c => f c + g c) = wsum f + wsum g := by
+  unfold wsum; simp only [Nat.add_mul]; omega
+
+theorem matW_split_aux : ∀ n, n < 256 →
+    matW (UInt8.ofNat n) = wsum (fun c => if UInt8.ofNat n = c then 1 else 0) := by decide +kernel
+
+theorem matW_split (p : Pc) : matW p = wsum (fun c => if p = c then 1 else 0) := by
+  have h := matW_split_aux p.toNat (UInt8.toNat_lt p)
+  rwa [UInt8.ofNat_toNat] at h
+
+theorem foldN_ofNat (g : Nat → Nat) (n : Nat) :
+    foldN (· + ·) 0 (fun s => BitVec.ofNat 32 (g s)) n = BitVec.ofNat 32 (foldN (· + ·) 0 g n) := by
+  induction n with
+  | zero => rfl
+  | succ n ih => simp only [foldN, ih, BitVec.ofNat_add]
+
+theorem foldN_matW (h : Nat → Pc) (n : Nat) :
+    foldN (· + ·) 0 (fun s => matW (h s)) n =
+      wsum (fun c => foldN (· + ·) 0 (fun s => if h s = c then 1 else 0) n) := by
+  induction n with
+  | zero => simp [foldN, wsum]
+  | succ n ih => simp only [foldN, ih, wsum_add]; rw [← matW_split]
+
+/-- the from-scratch value of the model's `matId` field is the exact identifier of the board's piece counts,
+    reduced mod 2^32 (by `matId_toNat` the reduction is vacuous for promotion-consistent counts) -/
+theorem sum32_matTable (b : Board) :
+    sum32 (fun s => matTable (getP b s)) = BitVec.ofNat 32 (matIdNat (countsOf b)) := by
+  unfold sum32 matTable
+  rw [foldN_ofNat, foldN_matW]
+  rfl
+
+theorem sum32_matTable_toNat (b : Board) (h : PromoConsistent (countsOf b)) :
+    (sum32 (fun s => matTable (getP b s))).toNat = matIdNat (countsOf b) := by
+  rw [sum32_matTable, matId_toNat _ h]
 
 /-! ## D. the hypotheses are satisfiable -/
 
